@@ -6,6 +6,7 @@ import (
 	"sort"
 	"strings"
 	"sync"
+	"sync/atomic"
 
 	"github.com/contiv/libOpenflow/common"
 	of "github.com/contiv/libOpenflow/openflow13"
@@ -188,6 +189,8 @@ func c14Process(w c14Work, variant uint64) (digest uint64, perr string) {
 	}
 	return digest, ""
 }
+
+var c14ErrNoise atomic.Int64
 
 // c14Cold: has this worker process already used the library? State that is initialised lazily on first use can
 // only race on a cold process, so the first case of every process starts with a "first use" storm, and processes
@@ -430,12 +433,19 @@ func c14Eval(c *fw.Ctx, data any) {
 			<-start2
 			for j := g; j < len(perm); j += G {
 				k := perm[j]
+				if k%3 == 0 {
+					// other users of the library run into errors meanwhile (a failed encode or decode must not leave
+					// anything behind that an unrelated unit of work picks up)
+					errorNoise(prng.Derive(cs.Seed, 77, uint64(k)), 2)
+					c14ErrNoise.Add(1)
+				}
 				conc[k], perrs[k] = c14Process(work[k], 1)
 			}
 		}(g)
 	}
 	close(start2)
 	wg.Wait()
+	c.Count("error_path_calls_interleaved", c14ErrNoise.Swap(0)*2)
 	for k := range work {
 		if alone[k] {
 			continue
